@@ -91,6 +91,10 @@ STARTUPS = {
     "return_early": [("recv",), ("return",)],
     "return_at_once": [("return",)],
     "unknown_msg": [("recv",), ("send_strict", {"type": "lifespan.bogus"})],
+    # an application that tries a message the server does not know, catches the refusal and carries on normally:
+    # the refused message must leave nothing behind (it serves, and is told to shut down exactly once)
+    "bogus_caught": [("recv",), ("send", {"type": "lifespan.startup.progress"}), ("gate", "ls"), ("set_state", "boot", 1),
+                     ("send", SC)],
 }
 SHUTDOWNS = {
     "complete": [("recv",), ("log_state",), ("send", DC)],
@@ -103,7 +107,7 @@ SHUTDOWNS = {
 }
 OK = [("recv_body",), ("send", {"type": "http.response.start", "status": 200, "headers": [(b"content-length", b"2")]}),
       ("send", {"type": "http.response.body", "body": b"ok", "more_body": False})]
-SERVES = ("complete", "gated")  # startups after which the server is expected to serve with lifespan support
+SERVES = ("complete", "gated", "bogus_caught")  # startups after which the server is expected to serve with lifespan support
 
 # ---- variants (5th element of the parameters): (config overrides, nesting depth of the lifespan application, a sibling
 # task crashing in the outermost group as well?, sources of client activity kept)
